@@ -2,6 +2,7 @@ package main
 
 import (
 	"go/token"
+	"strings"
 
 	"golang.org/x/tools/go/ssa"
 )
@@ -245,6 +246,92 @@ func runC15(p *P, r *R) {
 			})
 			r.ob("R15.3", "reset: drains a stale receive notification", p.ipos(ret), okDrain, true, "")
 		}
+		// a refused stream is closed by the pool right away: reset must leave it exactly as it found it, in
+		// particular with its callbacks still installed (Close hands a running callback the job of finishing the
+		// close through them) — no mutation of the stream may be followed by an error exit
+		// ... restricted to the state the close path consults (callbacks, fallback latch, ...): computed, not listed
+		closeReads := map[string]bool{}
+		var closeFns []*ssa.Function
+		for _, nm := range []string{"(*Stream).Close", "(*Stream).close"} {
+			if cf := p.fn(nm); cf != nil {
+				closeFns = append(closeFns, p.family(cf)...)
+			}
+		}
+		var collect func(f *ssa.Function, depth int)
+		seenF := map[*ssa.Function]bool{}
+		collect = func(f *ssa.Function, depth int) {
+			if seenF[f] || depth < 0 {
+				return
+			}
+			seenF[f] = true
+			allInstrs(f, func(in ssa.Instruction) {
+				if u, ok := in.(*ssa.UnOp); ok && u.Op == token.MUL {
+					if w := wordOf(u.X); strings.HasPrefix(w, "Stream.") {
+						closeReads[w] = true
+					}
+				}
+				if a := p.atomicOp(in); a != nil && strings.HasPrefix(a.Word, "Stream.") {
+					closeReads[a.Word] = true
+				}
+				if g := p.localCallee(in); g != nil && namedName(recvType(g)) == "Stream" {
+					collect(g, depth-1)
+				}
+			})
+		}
+		for _, cf := range closeFns {
+			collect(cf, 2)
+		}
+		storedWords := func(in ssa.Instruction) []string {
+			var ws []string
+			if s2, ok := in.(*ssa.Store); ok {
+				if w := wordOf(s2.Addr); strings.HasPrefix(w, "Stream.") {
+					ws = append(ws, w)
+				}
+			}
+			if a := p.atomicOp(in); a != nil && a.Op != "Load" && strings.HasPrefix(a.Word, "Stream.") {
+				ws = append(ws, a.Word)
+			}
+			return ws
+		}
+		nMut := 0
+		mutates := func(in ssa.Instruction) (string, bool) {
+			for _, w := range storedWords(in) {
+				if closeReads[w] {
+					return "store to " + w, true
+				}
+			}
+			if x, ok := in.(*ssa.Call); ok {
+				if g := p.localCallee(x); g != nil && namedName(recvType(g)) == "Stream" {
+					hit := ""
+					st := M{ID: "stores state the close path reads", F: func(i2 ssa.Instruction) bool {
+						for _, w := range storedWords(i2) {
+							if closeReads[w] {
+								hit = w
+								return true
+							}
+						}
+						return false
+					}}
+					if p.may(g, st, 2) {
+						return "call of " + p.fname(g) + " (writes " + hit + ")", true
+					}
+				}
+			}
+			return "", false
+		}
+		allInstrs(rs, func(in ssa.Instruction) {
+			what, ok := mutates(in)
+			if !ok {
+				return
+			}
+			nMut++
+			okp, res := p.findBadPath(rs, []Point{pointOf(in)}, pathOpts{Bad: func(i2 ssa.Instruction) bool {
+				ret, isRet := i2.(*ssa.Return)
+				return isRet && isErrorExit(ret)
+			}})
+			r.ob("R15.3", "reset: "+what+", which the close path consults, happens only once the stream is certain to be accepted (no error exit follows)", p.ipos(in), okp, true, "%s", p.pathString(res))
+		})
+		r.count("R15.3", "mutations in reset of state the close path consults", nMut, 2)
 	} else {
 		r.fail("R15.3", "anchor (*Stream).reset", "", "not found")
 	}
